@@ -120,7 +120,19 @@ def arith(op, a, b):
                 return float(r)   # kind of a negative integer power is left open (int or float), see C03.agree
             if isinstance(a, (int, float)) and not isinstance(b, complex) and a < 0 and float(b) != int(b):
                 raise OutOfDomain("real->complex")
-            r = a ** b
+            if (isinstance(a, complex) or isinstance(b, complex)) and a != 0:
+                # Python's complex power forms |a|**Re(b) and exp(-Im(b)*arg a) separately, and one of them may
+                # underflow or overflow although the product is an ordinary number: then take exp(b log a)
+                try:
+                    r = a ** b
+                except OverflowError:
+                    r = 0j
+                if r == 0 or not cmath.isfinite(r):
+                    r = cmath.exp(b * cmath.log(a))
+                    if r == 0:
+                        raise OutOfDomain("underflow")
+            else:
+                r = a ** b
         else:
             raise ValueError(op)
     except (ZeroDivisionError, OverflowError):
@@ -226,7 +238,10 @@ class Model:
             i = s.ev(e[2])
             if e[1] not in s.env:
                 raise Refused("undefined " + e[1])
-            return s.env[e[1]].flat()[i]
+            flat = s.env[e[1]].flat()
+            if not isint(i) or not -len(flat) <= i < len(flat):
+                raise OutOfDomain("index out of range")     # not a valid script: outside every property's quantifier
+            return flat[i]
         if k == "grp":
             return s.ev(e[1])
         if k == "un":
